@@ -8,6 +8,7 @@ import (
 	"os"
 	"os/exec"
 	"path/filepath"
+	"runtime/debug"
 	"strings"
 
 	"github.com/mlange-42/arche/ecs"
@@ -47,7 +48,15 @@ func RunTinyPart(prop, tier string) int {
 		return 2
 	}
 	rp := runner.NewReport(prop, tier)
-	f(rp)
+	func() {
+		defer func() {
+			if x := recover(); x != nil {
+				rp.Violation(&runner.ReplayFile{Scenario: "check-" + prop + "-tiny", Sig: "check-panicked", Kind: "panic",
+					Msg: fmt.Sprintf("the check (tiny build) panicked while driving the library: %v", x), OpsText: strings.Split(string(debug.Stack()), "\n")})
+			}
+		}()
+		f(rp)
+	}()
 	res := TinyResult{States: rp.States, Transitions: rp.Trans, Violations: rp.Violations, Known: rp.Known, Runs: rp.Runs, Extra: rp.Extra, Exhaustive: rp.Exhaustive}
 	b, _ := json.Marshal(&res)
 	fmt.Println("TINY-JSON " + string(b))
